@@ -4,7 +4,10 @@ Cases: well-formed tables (both orientations, text / onoff / datetime / numeric 
 x bounded subsets of defect sites (illegal numeric / onoff / datetime cells, duplicate column names, value rows
 cut short) x fixer configurations {default strict (no fixer), ParseFixer class, strict instance, lenient stock
 instance, lenient stock class, lenient custom instance, lenient custom class} x API {parse_blocks on native rows,
-read_csv on text} x multi-table streams sharing one fixer (default and collecting tracker).
+read_csv on text} x multi-table streams sharing one fixer (default and collecting tracker; tables abutting or separated, with or
+without a trailing blank row; zero-row tables; replacement-name collisions; short lines of transposed tables; the same
+in-memory grid read twice); two-sheet workbooks through read_excel (all three output forms); one foreign-typed custom
+fixer observed only (outside the statement).
 
 Correspondence (model vs code): the whole stream through Lean `parseBlocks` / `readCsv` (ops "parse_blocks_fx",
 "read_csv_blocks": delivered tables, issues, ending, and — on streams without a failed block — the fixer the
@@ -22,6 +25,9 @@ import contextlib
 import datetime
 import io
 import logging
+import os
+import shutil
+import tempfile
 import warnings
 
 from harness import common, reader_common as rc, blocks_common as bc
@@ -32,16 +38,21 @@ logging.disable(logging.CRITICAL)
 EXTRA = {
     "assumptions": [
         "CPython float() and pandas.to_datetime are external parameters of the model (oracle tables per string)",
-        "tables of at most 1000 columns (beyond that fix_duplicate_column_name falls back to one literal name; "
-        "theorem names_unique carries this hypothesis)",
         "the model does not carry the messages / counters of a block whose handler raised (Model/Blocks.lean "
         "continues with the reset fixer); the fixer left behind by a stream is therefore compared only on streams "
         "without a failed block; failed blocks are compared through the strict-vs-lenient theorem: the messages in "
         "the InputError text must be those of the lenient model run of the same block",
         "messages accumulate across blocks in the real fixer (never cleared); the statement does not forbid it and "
         "no verdict depends on it (theorem isolation)",
-        "short rows exist only in row-wise tables (a short line of a transposed table is padded with empty cells by "
-        "the reader before any fixer is involved)",
+        "short ROWS (the fixer's fix_missing_rows_in_column_data) exist only in row-wise tables. A short LINE of a "
+        "transposed table is generated too and judged by the documented behaviour: the reader pads it with empty cells "
+        "before any fixer is involved — no error is counted; the empty cell is NaN in a numeric column, the text 'None' "
+        "in a text column, and an illegal cell (replacement + one warning, named 'None') in an onoff / datetime column",
+        "a custom fixer returns a value of type vtype, as fix_illegal_cell_value's docstring requires; foreign-typed "
+        "replacements are coerced by numpy (None→False in an onoff column, a str turns a numeric column into text in "
+        "jsondata) — observed, outside the statement",
+        "workbooks: read_excel on a two-sheet .xlsx written by openpyxl (rows padded to sheet width with empty cells, "
+        "so row-wise short rows do not exist there); one fixer argument for the whole read",
         "cells are scalars (str / None / int / float / bool / datetime); unhashable cells (list, dict) are outside "
         "the input domain of every reader",
         "read_csv is exercised on io.StringIO (lines end in \\n only)",
@@ -80,7 +91,7 @@ ILLEGAL = {
 }
 ILLEGAL_NATIVE = {
     "onoff": [None, 2, 1.5, datetime.datetime(2020, 1, 2)],
-    "datetime": [None],
+    "datetime": [None, 5, 1.5, True, datetime.date(2020, 1, 2)],
     "num": [datetime.datetime(2020, 1, 2), datetime.date(2020, 1, 2), 2 ** 1024, -2 ** 1024],
 }
 UNITS = {"text": ["text"], "onoff": ["onoff"], "datetime": ["datetime"], "num": ["-", "m", "kg", "mm", "°C", "m/s"]}
@@ -88,6 +99,9 @@ STOCK = {"num": "nan", "datetime": "NaT", "onoff": False}
 CUSTOM = {"num": "-1.0", "datetime": "2000-01-01T00:00:00", "onoff": True}
 VTYPE = {"num": "float", "datetime": "datetime", "onoff": "onoff"}
 FIXER_KINDS = ["default", "class", "strict", "lenient", "lenient_class", "custom", "custom_class"]
+# a custom fixer whose replacements are of a FOREIGN type for the column (the model's FixCfg types replacements as
+# Bool / float token / timestamp token, so this one is judged by the oracle only)
+FOREIGN = {"onoff": None, "datetime": "n/a", "float": "x"}
 MODEL_KIND = {"default": "strict", "class": "strict", "strict": "strict", "lenient": "lenient",
               "lenient_class": "lenient", "custom": "custom", "custom_class": "custom"}
 
@@ -118,7 +132,15 @@ def fixer_arg(kind):
             ParseFixer.fix_illegal_cell_value(self, vtype, value)
             return {"onoff": True, "datetime": pd.Timestamp("2000-01-01"), "float": -1.0}.get(vtype, -1.0)
 
+    class ForeignCls(LenientCls):
+        def fix_illegal_cell_value(self, vtype, value):
+            ParseFixer.fix_illegal_cell_value(self, vtype, value)
+            return FOREIGN.get(vtype, "x")
+
     del _instances[:]
+    if kind == "foreign":
+        f = ForeignCls()
+        return f, lambda: f
     if kind == "default":
         return None, lambda: None
     if kind == "class":
@@ -166,8 +188,12 @@ def run_impl(rows=None, text=None, fixer_kind="default", tracker="raising", to="
                     pass
                 blocks.append({"ty": bt.name, "first": first, "val": bc.canon_block(bt, val, to)})
                 fx = getter()
-                snaps.append(None if fx is None else
-                             {"errors": fx._errors, "warnings": fx._warnings, "n_msgs": len(fx.messages)})
+                if fx is None:
+                    snaps.append(None)
+                else:
+                    prev = snaps[-1]["n_msgs"] if snaps and snaps[-1] else 0
+                    snaps.append({"errors": fx._errors, "warnings": fx._warnings, "n_msgs": len(fx.messages),
+                                  "new_msgs": list(fx.messages[prev:])})
     except InputError as e:
         issue = e.args[0]
         ending = {"InputError": getattr(getattr(issue, "load_location", None), "row", None)}
@@ -213,7 +239,7 @@ def gen_table(rng, idx, native=False, allow_transposed=True):
 def inject(rng, tab, native=False, p_defect=0.75):
     """choose a bounded subset of defect sites; returns the defect description"""
     n_col, n_row = len(tab["names"]), len(tab["data"])
-    d = {"illegal": {}, "dups": {}, "short": {}}
+    d = {"illegal": {}, "dups": {}, "short": {}, "tshort": {}}
     if rng.random() > p_defect:
         return d
     cands = [(i, j) for i in range(n_row) for j in range(n_col) if tab["kinds"][j] != "text"]
@@ -230,6 +256,13 @@ def inject(rng, tab, native=False, p_defect=0.75):
     # a table without value rows can only have a name defect: aim there more often
     if n_col >= 2 and rng.random() < (0.8 if n_row == 0 else 0.45):
         inject_dups(rng, tab, d)
+    if tab["transposed"] and n_col >= 2 and n_row >= 1 and rng.random() < 0.4:
+        # lines of a transposed table cut short (at least one line stays complete: it fixes the number of value rows).
+        # Documented behaviour: the reader pads such a line with empty cells BEFORE any fixer is involved — no error
+        # is counted; an empty cell is a missing number (NaN) in a numeric column, the text "None" in a text column,
+        # and an illegal cell (replacement + one warning) in an onoff / datetime column
+        for j in rng.sample(range(n_col), rng.choice([1, 1, min(2, n_col - 1)])):
+            d["tshort"][j] = rng.randrange(0, n_row)
     if not tab["transposed"] and n_col >= 2 and n_row >= 1 and rng.random() < 0.45:
         for i in rng.sample(range(n_row), rng.choice([1, 1, min(2, n_row)])):
             d["short"][i] = rng.randrange(1, n_col)          # keep the first cell: the row stays in the block
@@ -285,7 +318,7 @@ def header_names(tab, d):
 
 
 def build_grid(tab, d=None, pad=False):
-    d = d or {"illegal": {}, "dups": {}, "short": {}}
+    d = d or {"illegal": {}, "dups": {}, "short": {}, "tshort": {}}
     names = header_names(tab, d)
     data = [list(r) for r in tab["data"]]
     for (i, j), v in d["illegal"].items():
@@ -294,7 +327,10 @@ def build_grid(tab, d=None, pad=False):
     grid = [[head], ["all"]]
     if tab["transposed"]:
         for j in range(len(names)):
-            grid.append([names[j], tab["units"][j]] + [r[j] for r in data])
+            vals = [r[j] for r in data]
+            if j in d.get("tshort", {}):
+                vals = vals[: d["tshort"][j]]
+            grid.append([names[j], tab["units"][j]] + vals)
     else:
         grid.append(names)
         grid.append(list(tab["units"]))
@@ -307,9 +343,24 @@ def to_text(rows):
     return "".join(";".join(r) + "\n" for r in rows)
 
 
+def padded_cells(tab, d):
+    """cells of a transposed table that the reader pads with an empty cell because their line was cut short"""
+    return [(i, j) for j, keep in sorted(d.get("tshort", {}).items()) for i in range(keep, len(tab["data"]))]
+
+
+def padded_illegal(tab, d):
+    return [(i, j) for (i, j) in padded_cells(tab, d) if tab["kinds"][j] in ("onoff", "datetime")]
+
+
 def effective_illegal(tab, d):
-    """injected illegal cells that are still in the grid (not cut off by a short row)"""
-    return {(i, j): v for (i, j), v in d["illegal"].items() if not (i in d["short"] and j >= d["short"][i])}
+    """injected illegal cells that are still in the grid (not cut off by a short row or a short line)"""
+    pad = set(padded_cells(tab, d))
+    return {(i, j): v for (i, j), v in d["illegal"].items()
+            if not (i in d["short"] and j >= d["short"][i]) and (i, j) not in pad}
+
+
+def n_defects(tab, d):
+    return len(effective_illegal(tab, d)) + len(d["dups"]) + len(d["short"]) + len(padded_illegal(tab, d))
 
 
 # --------------------------------------------------------------------------- oracle
@@ -318,21 +369,35 @@ def same_col(a, b):
     return a == b
 
 
-def expect_message_names_defects(texts, tab, d, out, case):
-    """a strict failure's message names every injected defect"""
-    msg = "\n".join(t for t in texts if t)
+def block_entries(text):
+    """the message entries of ONE block out of a strict failure text: `messages` is never cleared, so the text lists
+    the entries of earlier blocks too; the block's own are the last N ("Stopped parsing after N errors")"""
+    import re as _re
+    m = _re.match(r"Stopped parsing after (\d+) errors in table '.*?' with messages:\n", text, _re.S)
+    if not m:
+        return None
+    entries = join_message_lines(text[m.end():].split("\n"))
+    n = int(m.group(1))
+    return entries[-n:] if n else []
+
+
+def expect_message_names_defects(entries, tab, d, out, case, what="strict failure message"):
+    """the message entries of a block name every injected defect (entries: list of message strings of that block)"""
     names = header_names(tab, d)
+    left = list(entries)
+
+    def take(want, kind):
+        for k, e in enumerate(left):
+            if e.startswith(want):
+                del left[k]
+                return True
+        out.fail(f"{what} does not name an injected {kind}", case, entries[-8:], want, key="strict_message:" + kind.split()[0])
+        return False
     for j in sorted(d["dups"]):
-        want = f"Duplicate column '{names[j]}' at position {j} "
-        if want not in msg:
-            out.fail("strict failure message does not name an injected duplicate column", case, msg[-400:], want,
-                     key="strict_message:dup")
+        if not take(f"Duplicate column '{names[j]}' at position {j} in table '{tab['name']}'", "duplicate column"):
             return False
     for i in sorted(d["short"]):
-        want = f"Missing data in row {i} of table '{tab['name']}'"
-        if want not in msg:
-            out.fail("strict failure message does not name an injected short row", case, msg[-400:], want,
-                     key="strict_message:short")
+        if not take(f"Missing data in row {i} of table '{tab['name']}'", "short row"):
             return False
     ill = effective_illegal(tab, d)
     for (i, j), v in sorted(ill.items(), key=lambda kv: kv[0]):
@@ -340,15 +405,17 @@ def expect_message_names_defects(texts, tab, d, out, case):
         shown = v
         if isinstance(v, str):
             shown = v.strip().lower() if k == "num" else (v.strip() if k == "datetime" else v)
-        want = f"Illegal value '{shown}' for unit '{VTYPE[k]} '"
-        if want not in msg:
-            out.fail("strict failure message does not name an injected illegal cell", case, msg[-400:], want,
-                     key="strict_message:illegal")
+        if not take(f"Illegal value '{shown}' for unit '{VTYPE[k]} ' in table '{tab['name']}'", "illegal cell"):
             return False
-    n_lines = msg.count("Illegal value '")
-    if n_lines < len(ill):
-        out.fail("fewer illegal-cell entries in the message than illegal cells", case, n_lines, len(ill),
-                 key="strict_message:count")
+    for (i, j) in padded_illegal(tab, d):
+        if not take(f"Illegal value 'None' for unit '{VTYPE[tab['kinds'][j]]} ' in table '{tab['name']}'",
+                    "illegal cell (empty cell padded into a short line)"):
+            return False
+    # what is left can only be filler cells of short rows that are illegal for their column (onoff)
+    n_fill = sum(1 for i, c in d["short"].items() for j in range(c, len(tab["names"])) if tab["kinds"][j] == "onoff")
+    extra = [e for e in left if not e.startswith("Illegal value 'NaN' for unit 'onoff '")]
+    if extra or len(left) != n_fill:
+        out.fail(f"{what} has entries that name no defect of this block", case, left, n_fill, key="strict_message:extra")
         return False
     return True
 
@@ -372,6 +439,7 @@ def check_lenient_table(t, base, tab, d, rep, fx, out, case):
                  key="lenient_header")
         return False
     ill = effective_illegal(tab, d)
+    pad = set(padded_cells(tab, d))
     for j in range(n_col):
         col, bcol, k = t["columns"][j], base["columns"][j], tab["kinds"][j]
         if len(col["v"]) != n_row:
@@ -381,7 +449,10 @@ def check_lenient_table(t, base, tab, d, rep, fx, out, case):
         for i in range(n_row):
             got = col["v"][i]
             cut = i in d["short"] and j >= d["short"][i]
-            if cut:
+            if (i, j) in pad:
+                want = {"text": "None", "num": "nan"}.get(k, rep.get(k))
+                what, key = "an empty cell padded into a short transposed line is not read as documented", "padded_line"
+            elif cut:
                 want = {"text": "NaN", "num": "nan", "datetime": "NaT"}.get(k, rep["onoff"])
                 what, key = "a cut-off cell does not hold the missing-value filler", "filler"
             elif (i, j) in ill:
@@ -398,8 +469,12 @@ def check_lenient_table(t, base, tab, d, rep, fx, out, case):
             out.fail("column kind changed by the repair", dict(case, column=j), col["k"], bcol["k"], key="kind")
             return False
     if fx is not None:
-        lo = len(ill) + len(d["dups"]) + len(d["short"])
+        lo = len(ill) + len(d["dups"]) + len(d["short"]) + len(padded_illegal(tab, d))
         hi = lo + sum(n_col - c for c in d["short"].values())
+        if d.get("tshort") and fx["errors"] != len(d["dups"]):
+            out.fail("a short line of a transposed table was counted as an error (documented: padded, not counted)", case,
+                     fx, len(d["dups"]), key="padded_line:counted")
+            return False
         fixes = fx["errors"] + fx["warnings"]
         if not (lo <= fixes <= hi):
             out.fail("fixer counters do not equal #illegal + #duplicates + (>= 1 per short row)", case,
@@ -474,7 +549,7 @@ def one_case(seed, idx, out, model_ok, ops, pend):
             rows = [l.rstrip("\n").split(";") for l in text.splitlines(True)]     # as csv.py splits them
         case = {"seed": seed, "index": idx, "fixer": fk, "tracker": tracker, "api": "read_csv" if use_text else "parse_blocks",
                 "rows": grid_to_json(rows)}
-        n_def = sum(len(effective_illegal(t, d)) + len(d["dups"]) + len(d["short"]) for t, d in zip(tabs, defs))
+        n_def = sum(n_defects(t, d) for t, d in zip(tabs, defs))
         out.evaluations += 1
         if n_def:
             out.nontrivial.add(hash((repr(rows), fk, tracker, use_text)))
@@ -517,7 +592,7 @@ def one_case(seed, idx, out, model_ok, ops, pend):
             return
 
         # ---- oracle
-        has_def = [bool(effective_illegal(t, d) or d["dups"] or d["short"]) for t, d in zip(tabs, defs)]
+        has_def = [n_defects(t, d) > 0 for t, d in zip(tabs, defs)]
         delivered = {b["first"]: b for b in impl["blocks"] if b["ty"] == "TABLE"}
         if isinstance(impl["ending"], dict) and "escaped" in impl["ending"]:
             out.fail("an exception other than InputError escaped the reader", case, impl["ending"], None,
@@ -542,7 +617,13 @@ def one_case(seed, idx, out, model_ok, ops, pend):
                     ok_case = False
                     break
                 txt = impl["issue_texts"][impl["issues"].index(st)]
-                if not expect_message_names_defects([txt], t, d, out, dict(case, table=k)):
+                entries = block_entries(txt)
+                if entries is None:
+                    out.fail("a strict read failed with something else than the fixer's report", dict(case, table=k),
+                             txt[:300], "Stopped parsing after N errors … with messages", key="strict_not_report")
+                    ok_case = False
+                    break
+                if not expect_message_names_defects(entries, t, d, out, dict(case, table=k)):
                     ok_case = False
                     break
                 if tracker == "raising":
@@ -570,7 +651,11 @@ def one_case(seed, idx, out, model_ok, ops, pend):
             if not check_lenient_table(tv, bases[k], t, d, rep, fxs, out, dict(case, table=k)):
                 ok_case = False
                 break
-            if not has_def[k] and tv != bases[k]:
+            if snap is not None and not strict and not expect_message_names_defects(
+                    snap["new_msgs"], t, d, out, dict(case, table=k), what="the fixer's message log of a lenient read"):
+                ok_case = False
+                break
+            if not has_def[k] and not d.get("tshort") and tv != bases[k]:
                 out.fail("a clean table in a stream reads differently from the same table read alone", dict(case, table=k),
                          tv, bases[k], key="isolation")
                 ok_case = False
@@ -603,6 +688,241 @@ def one_case(seed, idx, out, model_ok, ops, pend):
 
 
 
+def run_excel(path, fixer_kind, tracker, to):
+    """read_excel on a workbook: delivered tables keyed by (sheet name, origin row) through a recording handler,
+    fixer snapshot at every yield, issues with sheet and row"""
+    import pdtable.io.parsers.blocks as B
+    from pdtable import read_excel
+    from pdtable.table_origin import InputError
+    arg, getter = fixer_arg(fixer_kind)
+    tr = bc.collecting_tracker() if tracker == "collecting" else None
+    rec, blocks, snaps, ending, err = [], [], [], "exhausted", None
+    orig = B._table_handlers[to]
+
+    def wrapped(cells, *a, **kw):
+        origin = kw.get("origin", a[0] if a else None)
+        val = orig(cells, *a, **kw)
+        loc = getattr(origin, "input_location", None)
+        rec.append((getattr(loc, "sheet_name", None), getattr(loc, "row", None)))
+        return val
+    B._table_handlers[to] = wrapped
+    sink = io.StringIO()
+    try:
+        with warnings.catch_warnings(), contextlib.redirect_stdout(sink), contextlib.redirect_stderr(sink):
+            warnings.simplefilter("ignore")
+            for bt, val in read_excel(path, to=to, issue_tracker=tr, fixer=arg):
+                blocks.append({"ty": bt.name, "val": bc.canon_block(bt, val, to)})
+                fx = getter()
+                if fx is None:
+                    snaps.append(None)
+                else:
+                    prev = snaps[-1]["n_msgs"] if snaps and snaps[-1] and snaps[-1]["id"] == id(fx) else 0
+                    snaps.append({"errors": fx._errors, "warnings": fx._warnings, "n_msgs": len(fx.messages),
+                                  "new_msgs": list(fx.messages[prev:]), "id": id(fx)})
+    except InputError as e:
+        issue = e.args[0]
+        loc = getattr(issue, "load_location", None)
+        ending = {"InputError": [getattr(loc, "sheet_name", None), getattr(loc, "row", None)]}
+        err = issue_text(issue)
+    except Exception as e:  # noqa: BLE001
+        ending = {"escaped": type(e).__name__}
+    finally:
+        B._table_handlers[to] = orig
+    if tr is not None:
+        issues = [[getattr(i.load_location, "sheet_name", None), getattr(i.load_location, "row", None)] for i in tr.issues]
+        texts = [issue_text(i) for i in tr.issues]
+    else:
+        issues = [ending["InputError"]] if isinstance(ending, dict) and "InputError" in ending else []
+        texts = [err] if err is not None else []
+    tidx = [k for k, b in enumerate(blocks) if b["ty"] == "TABLE"]
+    tables = {}
+    if len(tidx) == len(rec):
+        for key, k in zip(rec, tidx):
+            tables[key] = (blocks[k]["val"], snaps[k])
+    return {"blocks": blocks, "tables": tables, "n_tables": len(tidx), "issues": issues, "texts": texts,
+            "ending": ending}
+
+
+def table_view(val, to):
+    """delivered table value -> the dict check_lenient_table reads"""
+    if to == "pdtable":
+        return val["table"]
+    return val["json"]
+
+
+def workbook_case(seed, idx, out, model_ok, ops, pend, tmpdir):
+    """a two-sheet workbook through read_excel: one fixer argument for the whole read (an instance is shared by both
+    sheets, a class gives every sheet its own instance), all three output forms"""
+    import openpyxl
+    rng = make_rng(seed, f"C13x:{idx}")
+    fk = rng.choice(["default", "strict", "lenient", "lenient", "lenient_class", "custom"])
+    to = ["pdtable", "jsondata", "cellgrid"][idx % 3]
+    tracker = rng.choice(["raising", "collecting"])
+    mk = MODEL_KIND[fk]
+    strict = mk == "strict"
+    rep = CUSTOM if mk == "custom" else STOCK
+    sheets, plan, k = [], [], 0
+    for sname in ("One", "Two"):
+        rows = []
+        for _ in range(rng.choice([1, 2])):
+            t = gen_table(rng, k, native=False)
+            d = inject(rng, t, native=False)
+            d["short"] = {}                            # a worksheet pads short rows with empty cells
+            k += 1
+            plan.append((sname, len(rows), t, d))
+            rows.extend(build_grid(t, d))
+            rows.append([])
+        sheets.append((sname, rows))
+    path = os.path.join(tmpdir, f"c13_{idx}.xlsx")
+    wb = openpyxl.Workbook()
+    wb.remove(wb.active)
+    for sname, rows in sheets:
+        ws = wb.create_sheet(sname)
+        for r in rows:
+            ws.append(list(r))
+    wb.save(path)
+    try:
+        wb2 = openpyxl.load_workbook(path, read_only=True, data_only=True, keep_links=False)
+        try:
+            xrows = {w.title: [list(r) for r in w.iter_rows(values_only=True)] for w in wb2.worksheets}
+        finally:
+            wb2.close()
+        impl = run_excel(path, fk, tracker, to)
+    finally:
+        os.remove(path)
+    case = {"seed": seed, "index": idx, "stream": "workbook", "fixer": fk, "tracker": tracker, "to": to,
+            "rows": {n: grid_to_json(r) for n, r in xrows.items()}}
+    out.evaluations += 1
+    out.nontrivial.add(hash((repr(sheets), fk, tracker, to)))
+    out.count("workbook:" + to)
+    out.count("workbook fixer:" + fk)
+    if isinstance(impl["ending"], dict) and "escaped" in impl["ending"]:
+        out.fail("an exception other than InputError escaped the reader", case, impl["ending"], None,
+                 key="escape:" + impl["ending"]["escaped"])
+        return
+    stopped = False
+    for sname, st, t, d in plan:
+        if stopped:
+            break
+        key = (sname, st)
+        c = dict(case, sheet=sname, table=t["name"])
+        defective = n_defects(t, d) > 0
+        if to == "cellgrid":
+            if key not in impl["tables"]:
+                out.fail("a table block was not delivered as a cell grid", c, sorted(map(str, impl["tables"])), str(key),
+                         key="workbook:cellgrid_missing")
+                return
+            val, snap = impl["tables"][key]
+            want = grid_to_json(xrows[sname][st: st + len(build_grid(t, d))])
+            if val["grid"] != want or (snap is not None and snap["errors"] + snap["warnings"] != 0):
+                out.fail("a raw cell grid was altered or counted by the fixer", c, val["grid"], want, key="workbook:cellgrid")
+                return
+            continue
+        if strict and defective:
+            if key in impl["tables"] or [sname, st] not in impl["issues"]:
+                out.fail("a strict read of a workbook did not refuse and report a defective table", c,
+                         {"issues": impl["issues"]}, [sname, st], key="workbook:strict")
+                return
+            entries = block_entries(impl["texts"][impl["issues"].index([sname, st])])
+            if entries is None or not expect_message_names_defects(entries, t, d, out, c):
+                if entries is None:
+                    out.fail("a strict read failed with something else than the fixer's report", c,
+                             impl["texts"][impl["issues"].index([sname, st])][:300], None, key="strict_not_report")
+                return
+            if tracker == "raising":
+                stopped = True
+            continue
+        if key not in impl["tables"]:
+            out.fail("a readable table of a workbook was not delivered", c, {"issues": impl["issues"], "ending": impl["ending"]},
+                     str(key), key="workbook:not_delivered")
+            return
+        val, snap = impl["tables"][key]
+        base = run_impl(rows=build_grid(t), fixer_kind="default", to=to)
+        if base["ending"] != "exhausted" or len(base["blocks"]) != 1:
+            return
+        fxs = None
+        if snap is not None:
+            fxs = dict(snap, n_msgs_delta=None if strict else len(snap["new_msgs"]))
+        if not check_lenient_table(table_view(val, to), table_view(base["blocks"][0]["val"], to), t, d, rep, fxs, out, c):
+            return
+        if snap is not None and not strict and not expect_message_names_defects(
+                snap["new_msgs"], t, d, out, c, what="the fixer's message log of a lenient read"):
+            return
+    # ---- model: every sheet is one parse_blocks call; the read stops at the first sheet that raises
+    if model_ok:
+        for sname, _ in sheets:
+            ops.append({"op": "parse_blocks_fx", "rows": grid_to_json(xrows[sname]), "to": to, "filter": None,
+                        "tracker": tracker, "fixer": rc.FIXERS[mk], "ext": rc.ext_tables(xrows[sname])})
+            pend.append(("sheet", dict(case, sheet=sname), impl, sname))
+
+
+def foreign_case(seed, idx, out):
+    """OBSERVATION ONLY (never a failure): a lenient custom fixer returning values of a foreign type (None for onoff,
+    text for numbers / timestamps) breaks the contract of fix_illegal_cell_value ("should return a suitable default
+    value of type vtype"), so it is outside the statement; what numpy / the reader make of it is counted."""
+    import math
+    from pdtable.io.parsers.blocks import parse_blocks
+    rng = make_rng(seed, f"C13f:{idx}")
+    tab = gen_table(rng, 0, native=False)
+    if not tab["data"] or all(k == "text" for k in tab["kinds"]):
+        return
+    d = inject(rng, tab, native=False, p_defect=1.0)
+    d["short"], d["tshort"] = {}, {}
+    ill = effective_illegal(tab, d)
+    if not ill:
+        return
+    to = rng.choice(["pdtable", "jsondata"])
+    rows = build_grid(tab, d)
+
+    def read(grid, fixer):
+        tr = bc.collecting_tracker()
+        sink = io.StringIO()
+        with warnings.catch_warnings(), contextlib.redirect_stdout(sink), contextlib.redirect_stderr(sink):
+            warnings.simplefilter("ignore")
+            got = [v for bt, v in parse_blocks(iter([list(r) for r in grid]), to=to, issue_tracker=tr, fixer=fixer)
+                   if bt.name == "TABLE"]
+        return got, [getattr(i.load_location, "row", None) for i in tr.issues]
+
+    def columns(v):
+        if to == "pdtable":
+            return [v.df[c].tolist() for c in v.df.columns]
+        return [col["values"] for col in v["columns"].values()]
+
+    def same(a, b):
+        import pandas as pd
+        if isinstance(a, float) and isinstance(b, float) and math.isnan(a) and math.isnan(b):
+            return True
+        if a is pd.NaT or b is pd.NaT:
+            return a is b
+        return type(a) is type(b) and a == b or (a is None and b is None) or \
+            (not isinstance(a, (str, bool)) and not isinstance(b, (str, bool)) and a is not None and b is not None and a == b)
+    try:
+        base, bissues = read(build_grid(tab), None)
+        got, issues = read(rows, fixer_arg("foreign")[0])
+    except Exception as e:  # noqa: BLE001
+        out.count("foreign_fixer:observed:exception " + type(e).__name__)
+        return
+    if bissues or len(base) != 1:
+        return
+    if not got:
+        out.count("foreign_fixer:observed:table refused" + (" (located)" if issues == [0] else " (not located)"))
+        return
+    cols, bcols = columns(got[0]), columns(base[0])
+    what = "value kept, neighbours untouched"
+    for j, k in enumerate(tab["kinds"]):
+        if j >= len(cols):
+            break
+        for i in range(len(tab["data"])):
+            v = cols[j][i]
+            if (i, j) in ill:
+                want = FOREIGN[VTYPE[k]]
+                if not (v is want or (isinstance(v, str) and v == want)):
+                    what = f"replacement coerced in a {k} column ({to})"
+            elif not same(v, bcols[j][i]):
+                what = f"neighbours retyped in a {k} column ({to})"
+    out.count("foreign_fixer:observed:" + what)
+
+
 def run(tier, seed, model_ok, translator, search=False):
     out = Outcome()
     out.rule = ("streams of 1-3 well-formed tables (both orientations; text/onoff/datetime/numeric columns; text or "
@@ -616,13 +936,44 @@ def run(tier, seed, model_ok, translator, search=False):
     ops, pend = [], []
     for idx in range(n_streams):
         one_case(seed, idx, out, model_ok, ops, pend)
+    for idx in range(300 if thorough else 60):
+        foreign_case(seed, idx, out)
+    out.notes.append("foreign-typed custom fixer (observation only, outside the statement): numpy coerces the "
+                     "replacement — None becomes False in an onoff column (np.array(..., dtype=bool)); a str replacement "
+                     "turns a numeric column into text in the jsondata form and makes the pdtable form refuse the table "
+                     "with a located issue; see generator_distribution keys foreign_fixer:observed:*")
+    tmpdir = tempfile.mkdtemp(prefix="c13-")
+    try:
+        for idx in range(90 if thorough else 18):
+            workbook_case(seed, idx, out, model_ok, ops, pend, tmpdir)
+    finally:
+        shutil.rmtree(tmpdir, ignore_errors=True)
 
     if model_ok and ops:
         answers = common.run_model(ops)
         msg_pos = {}
+        books = {}
         for (what, case, impl, extra), ans in zip(pend, answers):
             if isinstance(ans, dict) and "error" in ans:
                 out.mismatch("driver error", case, None, ans)
+                continue
+            if what == "sheet":
+                acc = books.setdefault(id(impl), {"blocks": [], "issues": [], "ending": "exhausted", "stopped": False})
+                if not acc["stopped"]:
+                    m = bc.canon_model(ans)
+                    acc["blocks"] += [{"ty": b["ty"], "val": b["val"]} for b in m["blocks"]]
+                    acc["issues"] += [[extra, r] for r in m["issues"]]
+                    if m["ending"] != "exhausted":
+                        acc["stopped"] = True
+                        acc["ending"] = {"InputError": [extra, m["ending"]["InputError"]]} if "InputError" in m["ending"] \
+                            else m["ending"]
+                if extra == "Two":
+                    got = {"blocks": impl["blocks"], "issues": impl["issues"], "ending": impl["ending"]}
+                    want = {k: acc[k] for k in ("blocks", "issues", "ending")}
+                    if got != want:
+                        out.mismatch("workbook: read_excel vs Lean parseBlocks sheet by sheet", case,
+                                     {"ending": got["ending"], "issues": got["issues"], "blocks": got["blocks"]},
+                                     {"ending": want["ending"], "issues": want["issues"], "blocks": want["blocks"]})
                 continue
             if what == "stream":
                 msg_pos[id(impl)] = 0
@@ -687,7 +1038,14 @@ def replay(rep):
         return False, "replay file has no input (no-failing-input-found): " + str(rep.get("broken"))[:300]
     seed = int(inp.get("seed", rep.get("seed", 0)))
     o = Outcome()
-    one_case(seed, int(inp["index"]), o, False, [], [])
+    if inp.get("stream") == "workbook":
+        tmpdir = tempfile.mkdtemp(prefix="c13-")
+        try:
+            workbook_case(seed, int(inp["index"]), o, False, [], [], tmpdir)
+        finally:
+            shutil.rmtree(tmpdir, ignore_errors=True)
+    else:
+        one_case(seed, int(inp["index"]), o, False, [], [])
     if o.failures:
         return False, o.failures[0]["what"]
     return True, "property holds on this input (case regenerated from seed and index)"
